@@ -1035,7 +1035,6 @@ def f7_designs():
     return out
 
 
-PRINT_ID = "C04-print-zero-flag-with-align"
 _FMT_RE = None
 
 
